@@ -92,9 +92,15 @@ def call_tokens(c):
     return " ".join(t)
 
 
+KEYS_AS = {"list": list, "tuple": tuple, "gen": lambda ks: (k for k in ks), "iter": lambda ks: iter(list(ks)), "map": lambda ks: map(lambda k: k, ks),
+           "dictkeys": lambda ks: dict.fromkeys(ks).keys()}
+
+
 def invoke(client, c, keys_as=list):
     """perform the call on a real client object (Client / PooledClient / HashClient / RetryingClient)"""
     op = c["op"]
+    if "as" in c:
+        keys_as = KEYS_AS[c["as"]]          # the kind of collection the keys are handed over in (a one-shot iterator is always truthy)
     kw = {}
     if op in ("set", "add", "replace", "append", "prepend"):
         if "e" in c: kw["expire"] = c["e"]
